@@ -36,10 +36,19 @@ Definition visit_event (P : list seg) (n : dm) (s : sel) (ls : list bytes) : eve
 Definition interest_kids (n : dm) (attn : list seg) : list (seg * dm) :=
   flat_map (fun ps => match lookup_seg n ps with Some v => [(ps, v)] | None => [] end) attn.
 
-Definition children (n : dm) (s : sel) : list (seg * dm) :=
+(* first occurrences only, compared by segment string (what PathSegment.Equals compares) *)
+Fixpoint dedup_segs (seen : list bytes) (l : list seg) : list seg :=
+  match l with
+  | [] => []
+  | p :: r => if (fix mem (x : bytes) (l : list bytes) : bool :=
+                    match l with [] => false | y :: t => bytes_eqb x y || mem x t end) (seg_string p) seen
+              then dedup_segs seen r else p :: dedup_segs (seg_string p :: seen) r
+  end.
+
+Definition children (q : quirks) (n : dm) (s : sel) : list (seg * dm) :=
   match interests s with
   | None => kids n
-  | Some attn => interest_kids n attn
+  | Some attn => interest_kids n (if q_union_dup q then attn else dedup_segs [] attn)
   end.
 
 (* run the steps in order, stop at the first outcome that is not OOk *)
@@ -53,12 +62,13 @@ Fixpoint seqk {A} (step : A -> list event * outcome) (ks : list A) : list event 
   end.
 
 Section Walk.
+  Variable q : quirks.
   Variable g : list (bytes * dm).
 
   (* Progress.explore for one child (segment, value) of node n under selector s *)
   Definition explore_step (rec : list bytes -> list seg -> dm -> sel -> list event * outcome)
              (ls : list bytes) (P : list seg) (n : dm) (s : sel) (k : seg * dm) : list event * outcome :=
-    match explore s n (fst k) with
+    match explore q s n (fst k) with
     | XPanic => ([], OPanic)
     | XErr => ([], OErr WExplore)
     | XOk None => ([], OOk)
@@ -82,7 +92,7 @@ Section Walk.
     | S f' =>
         let ev := visit_event P n s ls in
         if is_container n then
-          let '(e, o) := seqk (explore_step (walk f') ls P n s) (children n s) in (ev :: e, o)
+          let '(e, o) := seqk (explore_step (walk f') ls P n s) (children q n s) in (ev :: e, o)
         else ([ev], OOk)
     end.
 
@@ -96,8 +106,8 @@ Definition is_match_visit (e : event) : bool := match e with EVisit _ _ RMatch _
 Definition visits (t : list event) : list event := filter is_visit t.
 Definition loads (t : list event) : list event := filter is_load t.
 (* Progress.WalkMatching: the same walk, the callback fires for SelectionMatch visits only *)
-Definition walk_matching (g : list (bytes * dm)) (f : nat) (root : dm) (s : sel) : list event * outcome :=
-  let '(e, o) := walk_adv g f root s in (filter (fun x => is_match_visit x || is_load x) e, o).
+Definition walk_matching (q : quirks) (g : list (bytes * dm)) (f : nat) (root : dm) (s : sel) : list event * outcome :=
+  let '(e, o) := walk_adv q g f root s in (filter (fun x => is_match_visit x || is_load x) e, o).
 
 Definition ev_path (e : event) : list seg := match e with EVisit p _ _ _ => p | ELoad p _ _ => p end.
 Definition ev_stack (e : event) : list bytes := match e with EVisit _ _ _ ls => ls | ELoad _ _ ls => ls end.
